@@ -141,9 +141,8 @@ row(SCD, "call", "crate::Uint::<BITS, LIMBS>::from_limbs_slice|diverge|panic!#sw
     "bits % 64 two lines above (arithmetic on the mode byte)")
 row(SCD, "call", "crate::from::<impl %s>::from|diverge|panic!#match" % U,
     "Uint::<536,9>::from(x) with x: Uint<BITS,LIMBS>, BITS < 536 by assert_compact_supported at entry")
-row("<crate::support::scale::PrefixInput<'a, T> as parity_scale_codec::codec::Input>::read", "assert:BoundsCheck",
-    "BoundsCheck[0]", "buffer[0] in the match arm guarded by `if !buffer.is_empty()`",
-    requires=[{"test": "core::slice::<impl [T]>::is_empty", "truth": False}])
+# (PrefixInput::read's buffer[0] under `if !buffer.is_empty()` is discharged by the interval engine since bounds
+#  checks on `&mut [T]` read the length through `&raw const *r`, which is now linked to the slice)
 PG = "crate::support::postgres::<impl postgres_types::FromSql<'a> for %s>::from_sql" % U
 row(PG + "::{closure#0}", "foreign", RUNWRAP,
     "raw.try_into::<[u8; 2]>().unwrap() on the items of chunks_exact(2), which are exactly 2 bytes long (core "
